@@ -676,7 +676,8 @@ func runIntro(dir string, c *chain, count int) {
 		f["burn"], f["maxSize"], f["prec"] = int(vp.BurnFactor), int(vp.MaxTransactionSize), int(vp.MaxDropletPrecision)
 		ua := "skycoin:0.27.0"
 		if rng.Intn(8) == 0 {
-			ua = []string{"", "skycoin", "skycoin:x.y.z", ":0.27.0", "skycoin:0.27"}[rng.Intn(5)] // invalid even after sanitising
+			// invalid even after sanitising; the last three have the right shape but are not semantic versions (leading zeros)
+			ua = []string{"", "skycoin", "skycoin:x.y.z", ":0.27.0", "skycoin:0.27", "skycoin:0.25.01", "skycoin:01.2.3", "skycoin:0.027.0"}[rng.Intn(8)]
 			f["uaValid"] = false
 		}
 		uab := encoder.SerializeString(ua)
